@@ -217,7 +217,13 @@ func c19Worker(c *core.Collector, x *Ctx) {
 	for _, s := range all {
 		phones[s.phone] = true
 	}
-	created := 0
+	owners := map[string]string{} // payload token prefix -> phone of the uploading session
+	for _, s := range all {
+		for _, tk := range s.tokens {
+			owners[string(tk[:20])] = s.phone
+		}
+	}
+	created, inOwn := 0, 0
 	for p, e := range after {
 		rel := p
 		old, existed := before[p]
@@ -228,6 +234,17 @@ func c19Worker(c *core.Collector, x *Ctx) {
 		parts := strings.Split(rel, string(filepath.Separator))
 		// allowed: root/work/<phone>/...   and root/work/file.log (append-only, checked below)
 		if len(parts) >= 3 && parts[0] == "root" && parts[1] == "work" && phones[parts[2]] {
+			// inside a terminal directory of this run: it must be the directory of the terminal that uploaded it
+			if !e.Dir {
+				if b, err := os.ReadFile(filepath.Join(cwd, p)); err == nil && len(b) >= 20 {
+					if owner, ok := owners[string(b[:20])]; ok {
+						inOwn++
+						if owner != parts[2] {
+							c.Violate("escape|a file was stored in the directory of another terminal", fmt.Sprintf("payload of terminal %s stored as %s", owner, rel), map[string]any{"path": rel, "uploader": owner})
+						}
+					}
+				}
+			}
 			continue
 		}
 		if rel == filepath.Join("root", "work", "file.log") {
@@ -256,6 +273,8 @@ func c19Worker(c *core.Collector, x *Ctx) {
 		}
 	}
 	c.Count("paths_created_or_modified", int64(created))
+	c.Count("stored_payloads_attributed_to_their_uploader", int64(inOwn))
+	c.Floor("stored_payloads_attributed_to_their_uploader", 10)
 	c.Floor("sessions", 100)
 	c.Floor("paths_created_or_modified", 10)
 }
